@@ -142,7 +142,7 @@ CLAIMED = {
              'the symbol from data + error codewords (placement, fixed corner pattern, finder/clock/alignment) and decoding the pixels '
              '(strict parsing, placement read-out, error correction) hands exactly the data codewords to the data decoder -- composition of '
              'C06, C07 (table, bijection, values), C08 (parse of rendering) and the weight-0 case of the error decoder; so the two observation '
-             'routes of the property agree for every input and configuration (C01_routes_agree). C01_ascii_plan_roundtrip / C01_ascii_only_roundtrip: the data layer for every byte string and list whenever the plan is "stay in ASCII" (encoder theorem composed with C04), which is proved to be the only possible answer of the optimiser when only ASCII is enabled; C01_base256_only_roundtrip: likewise for the Base256-only configuration (plan "Base256 to the end", length field in all three forms) -- and C01_ab_plan_roundtrip / C01_ascii_base256_roundtrip: for EVERY plan that uses only ASCII and Base256, whatever its switch positions (so, with the crate\'s optimiser, whose plans name enabled modes only, for every mode set within {ASCII, Base256}) -- and C01_ax_plan_roundtrip / C01_ax_modes_roundtrip / C01_macro_ax_roundtrip / C01_fnc1_ax_roundtrip: the same for every plan over ASCII and X12 (Proofs/EncAX.v), hence for the mode sets {X12} and {ASCII, X12}, and C01_ac_modes_roundtrip / C01_macro_ac_roundtrip / C01_fnc1_ac_roundtrip for every plan over ASCII and C40, or ASCII and Text (Proofs/EncAC.v: padded flush of the pending values, the end-of-data cases b-d with the already written shift values of the last character as a legal fill), hence {C40}, {ASCII, C40}, {Text}, {ASCII, Text} -- for these nine mode sets (every set with at most one mode beside ASCII, except EDIFACT, plus {ASCII, Base256}) the whole property is a theorem. PARTIAL: the data layer under plans that use C40/Text/X12/EDIFACT, '
+             'routes of the property agree for every input and configuration (C01_routes_agree). C01_ascii_plan_roundtrip / C01_ascii_only_roundtrip: the data layer for every byte string and list whenever the plan is "stay in ASCII" (encoder theorem composed with C04), which is proved to be the only possible answer of the optimiser when only ASCII is enabled; C01_base256_only_roundtrip: likewise for the Base256-only configuration (plan "Base256 to the end", length field in all three forms) -- and C01_ab_plan_roundtrip / C01_ascii_base256_roundtrip: for EVERY plan that uses only ASCII and Base256, whatever its switch positions (so, with the crate\'s optimiser, whose plans name enabled modes only, for every mode set within {ASCII, Base256}) -- and C01_ax_plan_roundtrip / C01_ax_modes_roundtrip / C01_macro_ax_roundtrip / C01_fnc1_ax_roundtrip: the same for every plan over ASCII and X12 (Proofs/EncAX.v), hence for the mode sets {X12} and {ASCII, X12}, and C01_ac_modes_roundtrip / C01_macro_ac_roundtrip / C01_fnc1_ac_roundtrip for every plan over ASCII and C40, or ASCII and Text (Proofs/EncAC.v: padded flush of the pending values, the end-of-data cases b-d with the already written shift values of the last character as a legal fill), hence {C40}, {ASCII, C40}, {Text}, {ASCII, Text} -- for these nine mode sets (every set with at most one mode beside ASCII, except EDIFACT, plus {ASCII, Base256}) the whole property is a theorem; and C01_mixed_plan_roundtrip / C01_mixed_plan_test / C01_mixed_plan_macro / C01_mixed_plan_fnc1 (Proofs/EncMulti.v): for ANY planner and ANY mode set, the default configuration included, whenever the plan mixes only ASCII, Base256, X12, C40 and Text and no non-ASCII run starts within the last two characters (a test on the plan, p5b; the C18 check counts the share of generated cases inside it). PARTIAL: the data layer under plans that use C40/Text/X12/EDIFACT, '
              'decode_data(data codewords of encode(x)) = x for every x and configuration, is the composition of C02 and C04 and is not yet a '
              'theorem. The check evaluates it on every case: structured inputs x symbol lists x 63 mode subsets x macro x FNC1 are encoded and '
              'decoded both ways by the implementation (and by the correspondence-tied model) and compared with the input. Eight round-trip '
@@ -176,7 +176,7 @@ CLAIMED = {
              'Base256 length rewrite -- and an analysis of the first codeword a header-less stream can start with); C16_detection -- '
              'use_macro_if_possible is total and strips exactly the enveloped messages, leaving the body both as data and as the slice backup() '
              're-reads; C16_stream_shape; C16_decoder_macro05/06 -- a Macro codeword in first position makes the decoder return header ++ body ++ '
-             'trailer; C16_decoder_fnc1; C16_macro_roundtrip_ascii_only / C16_fnc1_roundtrip_ascii_only and C16_macro_roundtrip_ab / C16_fnc1_roundtrip_ab, C16_macro_roundtrip_ax / C16_fnc1_roundtrip_ax, C16_macro_roundtrip_ac / C16_fnc1_roundtrip_ac -- for every mode set within {ASCII, Base256}, {ASCII, X12}, {ASCII, C40} or {ASCII, Text}, whatever plan the optimiser returns, the lossless part is a theorem too (every enveloped message, every FNC1 start, every list: header codeword + legal script spelling the body + padding; the decoder returns the message). PARTIAL: that the body itself survives the mode encoders and the decoder (the lossless part) is the '
+             'trailer; C16_decoder_fnc1; C16_macro_roundtrip_ascii_only / C16_fnc1_roundtrip_ascii_only and C16_macro_roundtrip_ab / C16_fnc1_roundtrip_ab, C16_macro_roundtrip_ax / C16_fnc1_roundtrip_ax, C16_macro_roundtrip_ac / C16_fnc1_roundtrip_ac, C16_macro_roundtrip_mixed / C16_fnc1_roundtrip_mixed (any mode set, plans without EDIFACT that pass the tail test p5b) -- for every mode set within {ASCII, Base256}, {ASCII, X12}, {ASCII, C40} or {ASCII, Text}, whatever plan the optimiser returns, the lossless part is a theorem too (every enveloped message, every FNC1 start, every list: header codeword + legal script spelling the body + padding; the decoder returns the message). PARTIAL: that the body itself survives the mode encoders and the decoder (the lossless part) is the '
              'data-layer round trip and is decided per case: envelope generator (intact / damaged / missing header x trailer x body lengths 0..40) '
              'x macro x FNC1 x mode subsets, encoded and decoded by implementation and model. Four macro defects of the pinned tree were repaired.',
         design_ref='DESIGN.md 6/C16',
@@ -226,7 +226,7 @@ CLAIMED = {
              'codewords forming RS codewords (C06); C02_padding / C02_padding_form / C02_randomised_pad -- what the mode encoders wrote is never '
              'truncated and is followed, if capacity remains, by [254 unless in ASCII], 129 and pads randomised by the 253-state algorithm at their '
              'positions, to exactly the capacity; C02_header -- 232, 236/237, 241+designator come first in this order; C02_ascii_plan_conformant / C02_ascii_only_conformant -- under the plan "stay in ASCII" (the only possible plan when only ASCII is enabled), C02_base256_only_conformant for the Base256-only configuration, and C02_ab_plan_conformant / C02_ascii_base256_conformant for EVERY plan over ASCII and Base256 with arbitrary switch positions (every mode set within {ASCII, Base256}), and C02_ax_conformant / C02_macro_ax_conformant / C02_fnc1_ax_conformant for every plan over ASCII and X12 (the mode sets {X12}, {ASCII, X12}), C02_ac_conformant / C02_macro_ac_conformant / C02_fnc1_ac_conformant for every plan over ASCII and C40 or ASCII and Text ({C40}, {ASCII, C40}, {Text}, {ASCII, Text}), the whole stream is the rendering of a legal script of Spec/Stream16022.v. PARTIAL: that the part between '
-             'header and padding is a legal mode stream decoding to the input is, for EVERY input, a theorem only for those nine mode sets. For '
+             'header and padding is a legal mode stream decoding to the input is, for EVERY input, a theorem only for those nine mode sets and, under any mode set, for the plans without EDIFACT that pass the tail test p5b (C02_mixed_plan_conformant, C02_mixed_plan_macro_conformant, C02_mixed_plan_fnc1_conformant). For '
              'the other plans it is decided per output by a certificate whose check is proved sound in Coq (C02_certificate_sound: accepted => '
              'the stream is the rendering of a legal script of Spec/Stream16022.v spelling exactly the input bytes, and the model decoder '
              'returns them; nothing is assumed about the recogniser that guesses the script). The extracted check runs on every stream the '
